@@ -945,6 +945,7 @@ Record bfs_inv (s : st) (x1 : positive) (vis out : list positive) : Prop := {
   bi_sub : forall y, In y out -> In y vis;
   bi_nd : NoDup out;
   bi_x1 : In x1 vis;
+  bi_nx1 : ~ In x1 out;
   bi_mem : forall y, In y out -> In y (ids s) }.
 
 Lemma neighbours_members s x y : Inv s -> In y (neighbours s x) -> In y (ids s).
@@ -958,13 +959,14 @@ Lemma bfs_visit_inv s x1 vis q out a :
   In a (ids s) -> bfs_inv s x1 vis out ->
   let '(vis', _, out') := bfs_visit (vis, q, out) a in bfs_inv s x1 vis' out'.
 Proof.
-  intros Ha [I1 I2 I3 I4]. unfold bfs_visit. destruct (mem a vis) eqn:E.
+  intros Ha [I1 I2 I3 I5 I4]. unfold bfs_visit. destruct (mem a vis) eqn:E.
   - constructor; assumption.
   - assert (Hn : ~ In a vis) by (intro H; apply mem_In in H; congruence).
     constructor.
     + intros y [<-|Hy]; [left; reflexivity|right; apply I1; exact Hy].
     + constructor; [intro H; apply Hn; apply I1; exact H|exact I2].
     + right. exact I3.
+    + intros [<-|Hy]; [apply Hn; exact I3|apply I5; exact Hy].
     + intros y [<-|Hy]; [exact Ha|apply I4; exact Hy].
 Qed.
 
@@ -972,7 +974,7 @@ Lemma bfs_fold_inv s x1 : forall l vis q out,
   (forall a, In a l -> In a (ids s)) -> bfs_inv s x1 vis out ->
   let '(vis', _, out') := fold_left bfs_visit l (vis, q, out) in bfs_inv s x1 vis' out'.
 Proof.
-  induction l as [|a l IH]; intros vis q out Hl HI; simpl; [exact HI|].
+  induction l as [|a l IH]; intros vis q out Hl HI; cbn [fold_left]; [exact HI|].
   pose proof (bfs_visit_inv s x1 vis q out a (Hl a (or_introl eq_refl)) HI) as H.
   destruct (bfs_visit (vis, q, out) a) as [[v1 q1] o1]. apply IH; [|exact H].
   intros b Hb. apply Hl. right. exact Hb.
@@ -1048,34 +1050,17 @@ Proof.
     - intros y [<-|[]]. left. reflexivity.
     - constructor; [intros []|constructor].
     - right. left. exact E1.
+    - intros [E|[]]. congruence.
     - intros y [<-|[]]. exact Ha2. }
-  destruct (bfs_loop_inv s x1 HI _ _ _ _ _ HI0 Eb) as [vis' [B1 B2 B3 B4]].
+  destruct (bfs_loop_inv s x1 HI _ _ _ _ _ HI0 Eb) as [vis' [B1 B2 B3 B5 B4]].
   assert (Hout_nd : NoDup out) by (rewrite <- (rev_involutive out); apply NoDup_rev; exact B2).
   assert (Hout_mem : forall y, In y out -> In y (ids s)) by (intros y Hy; apply B4; apply in_rev in Hy; exact Hy).
-  (* x1 was in `visited` from the start and is never yielded afterwards; the first yield is a2 <> x1 *)
-  assert (Hx1out : ~ In x1 out).
-  { clear - Eb Hne E1 HI. intro Hin.
-    assert (G : forall fuel vis q o res, In x1 vis -> ~ In x1 o -> bfs_loop fuel s vis q o = Some res -> ~ In x1 res).
-    { induction fuel as [|f IH]; intros vis q o res Hv Ho Hr; destruct q as [|x q']; simpl in Hr; try discriminate.
-      - inversion Hr; subst. intro H. apply in_rev in H. contradiction.
-      - inversion Hr; subst. intro H. apply in_rev in H. contradiction.
-      - assert (F : forall l v q0 o0, In x1 v -> ~ In x1 o0 ->
-                  let '(v', _, o') := fold_left bfs_visit l (v, q0, o0) in In x1 v' /\ ~ In x1 o').
-        { induction l as [|a l IHl]; intros v q0 o0 A B; simpl; [auto|].
-          unfold bfs_visit at 2. destruct (mem a v) eqn:Ea; [apply IHl; assumption|].
-          apply IHl; [right; exact A|]. intros [E|E]; [|contradiction]. subst.
-          apply mem_In in A. congruence. }
-        specialize (F (neighbours s x) vis q' o Hv Ho).
-        destruct (fold_left bfs_visit (neighbours s x) (vis, q', o)) as [[v1 q1] o1]. destruct F as [F1 F2].
-        eapply IH; eauto. }
-    eapply (G _ _ _ _ _ _ _ Eb); [|exact Hin]. Unshelve.
-    - right. left. exact E1.
-    - intros [E|[]]. congruence. }
+  assert (Hx1out : ~ In x1 out) by (intro Hy; apply B5; apply in_rev in Hy; exact Hy).
   destruct (del_fold_ok out s HI Hout_nd Hout_mem) as [s1 [F1 [F2 F3]]].
   rewrite F1 in H. simpl bind in H.
-  rewrite add_atom_spec in H. simpl bind in H.
-  unfold conn_connect in H. simpl get_atom in H.
+  rewrite add_atom_spec in H. cbn [bind] in H.
   set (sa := added s1 el_Unknown l c2 0) in *.
+  unfold conn_connect in H. cbn [get_atom] in H.
   assert (M1 : In x1 (ids sa)).
   { unfold sa, added, ids. simpl. rewrite map_app. apply in_or_app. left. apply F3. split; assumption. }
   assert (M2 : In (next_a s1) (ids sa)).
